@@ -5,6 +5,9 @@ import (
 	"fmt"
 	"runtime"
 	"strconv"
+	"time"
+
+	"github.com/sahandsafizadeh/qeep/zzsimhook"
 )
 
 // Cooperative yield-granularity scheduler: every task is a real goroutine but
@@ -28,6 +31,7 @@ type Task struct {
 	resume   chan struct{}
 	gid      uint64
 	InCall   bool // set by the task body around library calls (probe)
+	Locks    int  // mutexes the task currently holds (dense instrumentation reports them)
 }
 
 type Sched struct {
@@ -41,8 +45,9 @@ type Sched struct {
 	pos            int
 	base           uint64
 	done           chan struct{}
-	InCallAtSwitch int // probe: switches that landed while another task had a call in flight
-	OraclePanic    any // a panic raised while the OnSwitch oracle was reading shared state
+	Stuck          bool // the tasks did not finish within the wall-clock watchdog (a task blocked for good while holding the baton)
+	InCallAtSwitch int  // probe: switches that landed while another task had a call in flight
+	OraclePanic    any  // a panic raised while the OnSwitch oracle was reading shared state
 }
 
 func (s *Sched) onSwitch(from, to, site int) {
@@ -87,6 +92,11 @@ func (s *Sched) hook(site int) {
 		b := t.Budget
 		t.Budget = 0
 		panic(BudgetExceeded{Budget: b, Site: site})
+	}
+	if t.Locks > 0 {
+		// never park a task inside a critical section: whoever needs that
+		// mutex next would block for good while holding the baton
+		return
 	}
 	k := Now() - s.base
 	for s.pos < len(s.Plan) && uint64(s.Plan[s.pos][0]) <= k {
@@ -166,8 +176,21 @@ func (s *Sched) Run(first int) {
 	s.cur = first
 	active = s
 	SetExtraHook(s.hook)
+	zzsimhook.LockHook = func(d int) {
+		if a := active; a != nil && a.cur >= 0 && a.cur < len(a.Tasks) {
+			a.Tasks[a.cur].Locks += d
+		}
+	}
 	s.Tasks[first].resume <- struct{}{}
-	<-s.done
+	// Wall-clock watchdog, used for nothing but giving up: if the baton holder
+	// blocks for good (a primitive the instrumenter does not know) the run is
+	// abandoned and reported as stuck, never as a verdict.
+	select {
+	case <-s.done:
+	case <-time.After(20 * time.Second):
+		s.Stuck = true
+	}
+	zzsimhook.LockHook = nil
 	SetOwner(0)
 	SetExtraHook(nil)
 	active = nil
